@@ -162,7 +162,7 @@ func (c *Ctx) Extra(key string, v interface{}) {
 func (c *Ctx) Violate(sig, what string, detail map[string]interface{}) {
 	c.mu.Lock()
 	defer c.mu.Unlock()
-	if len(c.viols) >= 8 {
+	if len(c.viols) >= 40 {
 		return
 	}
 	c.viols = append(c.viols, Violation{Prop: c.Prop, Sig: sig, What: what, Case: c.Case, Level: c.Level, Flavour: c.Flavour, Detail: detail})
